@@ -216,10 +216,43 @@ def coq_files():
     return fs
 
 
-def hygiene_scan():
-    """Forbidden constructs anywhere in the development; Variable/Hypothesis outside a Section."""
+def dep_closure(pid):
+    """The .v files Properties_<pid>.vo and Extract_<pid>.vo depend on (from coq_makefile's .Makefile.d)."""
+    dfile = os.path.join(COQ, ".Makefile.d")
+    deps = {}
+    try:
+        txt = open(dfile).read().replace("\\\n", " ")
+    except OSError:
+        return None
+    for line in txt.split("\n"):
+        if ":" not in line:
+            continue
+        lhs, rhs = line.split(":", 1)
+        srcs = [x for x in rhs.split() if x.endswith(".vo") or x.endswith(".v")]
+        for t in lhs.split():
+            if t.endswith(".vo"):
+                deps.setdefault(t, set()).update(srcs)
+    todo = ["Properties/Properties_%s.vo" % pid, "Extract/Extract_%s.vo" % pid]
+    seen = set()
+    while todo:
+        t = todo.pop()
+        if t in seen:
+            continue
+        seen.add(t)
+        for d in deps.get(t, ()):
+            if d.endswith(".vo") and not d.startswith("/"):
+                todo.append(d)
+    files = [os.path.join(COQ, t[:-1]) for t in seen if os.path.exists(os.path.join(COQ, t[:-1]))]
+    return files or None
+
+
+def hygiene_scan(pid=None):
+    """Forbidden constructs in the development; Variable/Hypothesis outside a Section.
+    With pid: the files the property's theorems and extracted model depend on (what this check vouches for);
+    without: every file under coq/ (used by the final whole-development scan, tools/scan_all.py)."""
     bad = []
-    for f in coq_files() + [os.path.join(COQ, "_CoqProject")]:
+    files = (dep_closure(pid) if pid else None) or coq_files()
+    for f in files + [os.path.join(COQ, "_CoqProject")]:
         with open(f) as fh:
             txt = fh.read()
         code = strip_coq_comments(txt) if f.endswith(".v") else txt
@@ -315,7 +348,7 @@ def coq_property(pid):
     for name, err in tr.items():
         if err:
             res["broken"].append({"kind": "translator", "name": "Gen_" + name, "detail": err})
-    hyg = hygiene_scan()
+    hyg = hygiene_scan(pid)
     for h in hyg:
         res["broken"].append({"kind": "hygiene", "name": h, "detail": "forbidden construct"})
     if not ok:
